@@ -137,6 +137,17 @@ type Outcome struct {
 	Results []AV
 	Panic   bool
 	Trail   []string // decisions taken, for diagnostics
+	Notes   []string // notes recorded by the rule's OnCall hook along this path
+}
+
+// HasNote reports whether the path recorded the note.
+func (o Outcome) HasNote(n string) bool {
+	for _, x := range o.Notes {
+		if x == n {
+			return true
+		}
+	}
+	return false
 }
 
 // QSelector decides whether the SSA value v, just defined with abstract operands args, is the
@@ -157,6 +168,7 @@ type PEval struct {
 	LoopOK    bool // when true, loops are tolerated: on re-entry the path continues in havoc mode (no refinement, unknown phis) and is cut with unknown results on the third visit
 	Truncated bool // set when a path was cut
 	paths     int
+	cur       *pstate
 	flow      *Flow
 	Err       error
 	tables    map[*ssa.Global]*ConstTable
@@ -165,6 +177,7 @@ type PEval struct {
 }
 
 type pstate struct {
+	notes []string // rule-defined path notes (see PEval.Note)
 	havoc bool // a loop was re-entered on this path: branches are followed both ways unrefined, phis are unknown
 	q     IvSet
 	env   map[ssa.Value]AV
@@ -173,7 +186,7 @@ type pstate struct {
 }
 
 func (s *pstate) fork() *pstate {
-	n := &pstate{havoc: s.havoc, q: s.q, env: make(map[ssa.Value]AV, len(s.env)+8), store: append([]AV(nil), s.store...), trail: append([]string(nil), s.trail...)}
+	n := &pstate{notes: append([]string(nil), s.notes...), havoc: s.havoc, q: s.q, env: make(map[ssa.Value]AV, len(s.env)+8), store: append([]AV(nil), s.store...), trail: append([]string(nil), s.trail...)}
 	for k, v := range s.env {
 		n.env[k] = v
 	}
@@ -211,12 +224,32 @@ func (ev *PEval) Run(fn *ssa.Function, args []AV) ([]Outcome, error) {
 	var outs []Outcome
 	s := &pstate{q: ev.Domain, env: map[ssa.Value]AV{}}
 	ev.call(s, fn, args, 0, func(s *pstate, res []AV, pan bool) {
-		outs = append(outs, Outcome{Q: s.q, Results: res, Panic: pan, Trail: s.trail})
+		outs = append(outs, Outcome{Q: s.q, Results: res, Panic: pan, Trail: s.trail, Notes: s.notes})
 	})
 	if ev.Err != nil {
 		return nil, ev.Err
 	}
 	return outs, nil
+}
+
+// Note records a note on the path currently being evaluated (valid inside OnCall).
+func (ev *PEval) Note(n string) {
+	if ev.cur != nil {
+		ev.cur.notes = append(ev.cur.notes, n)
+	}
+}
+
+// HasNote reports whether the current path already carries the note (valid inside OnCall).
+func (ev *PEval) HasNote(n string) bool {
+	if ev.cur == nil {
+		return false
+	}
+	for _, x := range ev.cur.notes {
+		if x == n {
+			return true
+		}
+	}
+	return false
 }
 
 func (ev *PEval) fail(format string, a ...any) {
@@ -685,6 +718,7 @@ func (ev *PEval) doCall(s *pstate, fr *frame, b, pred *ssa.BasicBlock, idx int, 
 		}
 	}
 	if ev.OnCall != nil {
+		ev.cur = s
 		if av, ok := ev.OnCall(ev, x, callee, args); ok {
 			s.env[x] = av
 			return false
@@ -837,12 +871,11 @@ func (ev *PEval) instr(s *pstate, fr *frame, v ssa.Value) AV {
 		return ev.convert(s, ev.val(s, x.X), x.X.Type(), x.Type())
 	case *ssa.MakeInterface:
 		a := ev.val(s, x.X)
-		if a.K == KNil || a.K == KUnk {
-			// a nil pointer in an interface is a non-nil interface; unknown stays unknown
-			if a.K == KNil {
-				return AV{K: KNonNil}
+		if a.K == KNil {
+			// a nil pointer in an interface is a non-nil interface
+			if _, isIface := x.X.Type().Underlying().(*types.Interface); !isIface {
+				return AV{K: KNonNil, Tag: a.Tag}
 			}
-			return AV{}
 		}
 		return a
 	case *ssa.ChangeInterface:
